@@ -1,25 +1,25 @@
 CONSTANTS
-  Mode = "c28"
+  Mode = "c16"
   NCols = 5
   Window = FALSE
   Edge = 3
-  NRows = 3
+  NRows = 4
   NT = 2
-  VAbs = 2
+  VAbs = 1
   Exist = TRUE
-  Depth = 18
+  Depth = 26
   MaxD = 2
   MaxArity = 2
   MaxStack = 2
-  MaxBatch = 4
-  MaxSeq = 2
+  MaxBatch = 2
+  MaxSeq = 1
   InitAll = 0
-  Warm = 4
-  ClassSet = {"wset", "wmx", "wtime", "wval", "query", "query2", "query3", "query4"}
+  Warm = 9
+  ClassSet = {"import", "importt", "groupby3", "startgroup3", "page"}
   LeafKinds = {"row"}
   Script = "none"
 INIT Init
 NEXT Next
 INVARIANT Emit
-INVARIANT MutexOK
 CHECK_DEADLOCK FALSE
+INVARIANT PagesConcatenate
